@@ -45,6 +45,7 @@ type simPolicy struct {
 	ReplyEtypeLo bool                // pick the LAST mutually supported etype of the client's list instead of the first
 	AddrLess     bool                // never put addresses into tickets
 	Referrals    map[string][]string // spn -> chain of realms to refer through before the final realm issues the ticket
+	ClockOffset  time.Duration       // the KDC's clock relative to the client's (legal within the clock skew)
 	SaltInReply  bool                // AS replies carry PA-ETYPE-INFO2 with the principal's salt whatever the pre-authentication policy
 }
 
@@ -77,24 +78,25 @@ type issueRec struct {
 }
 
 type reqRec struct {
-	Kind      string  `json:"kind"`
-	Realm     string  `json:"realm"`
-	CName     string  `json:"cname"`
-	SName     string  `json:"sname"`
-	Etypes    []int32 `json:"etypes"`
-	Options   string  `json:"options"`
-	TillMs    int64   `json:"till"`
-	RTimeMs   int64   `json:"rtime"`
-	HasRTime  bool    `json:"hasRtime"`
-	NAddrs    int     `json:"naddrs"`
-	Nonce     int     `json:"nonce"`
-	PAEncTS   string  `json:"paEncTS"` // "absent", "ok", "undecryptable", "skewed"
-	PATypes   []int32 `json:"patypes"`
-	AtMs      int64   `json:"at"`
-	Transport string  `json:"transport"`
-	Renew     bool    `json:"renew"`
-	AuthOK    bool    `json:"authOK"` // TGS: PA-TGS-REQ authenticator and body checksum verified
-	Answer    string  `json:"answer"`
+	Kind       string  `json:"kind"`
+	Realm      string  `json:"realm"`
+	CName      string  `json:"cname"`
+	SName      string  `json:"sname"`
+	Etypes     []int32 `json:"etypes"`
+	Options    string  `json:"options"`
+	TillMs     int64   `json:"till"`
+	RTimeMs    int64   `json:"rtime"`
+	HasRTime   bool    `json:"hasRtime"`
+	NAddrs     int     `json:"naddrs"`
+	Nonce      int     `json:"nonce"`
+	PAEncTS    string  `json:"paEncTS"` // "absent", "ok", "undecryptable", "skewed"
+	PATypes    []int32 `json:"patypes"`
+	AtMs       int64   `json:"at"`
+	Transport  string  `json:"transport"`
+	Renew      bool    `json:"renew"`
+	AuthOK     bool    `json:"authOK"` // TGS: PA-TGS-REQ authenticator and body checksum verified
+	AuthCRealm string  `json:"authCRealm,omitempty"`
+	Answer     string  `json:"answer"`
 }
 
 type simKDC struct {
@@ -120,6 +122,9 @@ func newSimKDC(origin time.Time) *simKDC {
 		lastKey: map[string]types.EncryptionKey{}, origin: origin, skew: 5 * time.Minute,
 		policy: simPolicy{Lifetime: 10 * time.Hour, Hints: []string{"info2"}}}
 }
+
+// now is the KDC's clock
+func (k *simKDC) now() time.Time { return time.Now().Add(k.policy.ClockOffset) }
 
 func (k *simKDC) ms(t time.Time) int64 {
 	if t.IsZero() {
@@ -329,7 +334,7 @@ func (k *simKDC) issue(isAS bool, realm string, cname types.PrincipalName, creal
 		return nil, k.krbErr(errorcode.KDC_ERR_ETYPE_NOSUPP, realm, cname, sname, nil)
 	}
 	sess := types.EncryptionKey{KeyType: sessEt, KeyValue: randKeyCrypto(sessEt)}
-	now := time.Now().UTC().Truncate(time.Second)
+	now := k.now().UTC().Truncate(time.Second)
 	life := k.policy.Lifetime
 	if len(sname.NameString) > 0 && sname.NameString[0] == "krbtgt" && k.policy.TGTLifetime > 0 {
 		life = k.policy.TGTLifetime
@@ -518,7 +523,7 @@ func (k *simKDC) handleAS(as messages.ASReq, transport string) []byte {
 				if pt, err := crypto.DecryptEncPart(ed, pk, keyusage.AS_REQ_PA_ENC_TIMESTAMP); err == nil {
 					var pats types.PAEncTSEnc
 					if pats.Unmarshal(pt) == nil {
-						d := time.Since(pats.PATimestamp)
+						d := k.now().Sub(pats.PATimestamp)
 						if d < 0 {
 							d = -d
 						}
@@ -547,7 +552,7 @@ func (k *simKDC) handleAS(as messages.ASReq, transport string) []byte {
 		rec.Answer = "replayed-earlier-reply"
 		return k.lastGood["AS"]
 	}
-	rp, errb := k.issue(true, b.Realm, b.CName, b.Realm, b.SName, b.Realm, b, ckey, time.Now().UTC().Truncate(time.Second), time.Time{}, false)
+	rp, errb := k.issue(true, b.Realm, b.CName, b.Realm, b.SName, b.Realm, b, ckey, k.now().UTC().Truncate(time.Second), time.Time{}, false)
 	if rp == nil {
 		rec.Answer = "krberror"
 		return errb
@@ -611,7 +616,7 @@ func (k *simKDC) handleTGS(tgs messages.TGSReq, transport string) []byte {
 	}
 	tk := ap.Ticket.DecryptedEncPart
 	rec.CName = tk.CName.PrincipalNameString()
-	if time.Now().UTC().After(tk.EndTime) {
+	if k.now().UTC().After(tk.EndTime) {
 		rec.Answer = "krberror-32"
 		return k.krbErr(errorcode.KRB_AP_ERR_TKT_EXPIRED, b.Realm, tk.CName, b.SName, nil)
 	}
@@ -625,6 +630,13 @@ func (k *simKDC) handleTGS(tgs messages.TGSReq, transport string) []byte {
 		rec.Answer = "krberror-41"
 		return k.krbErr(errorcode.KRB_AP_ERR_MODIFIED, b.Realm, tk.CName, b.SName, nil)
 	}
+	// RFC 4120 3.2.3 (which 3.3.2 applies to the AP-REQ of a TGS request): the name and realm of the client in the authenticator
+	// must be those of the ticket, else KRB_AP_ERR_BADMATCH (MIT's KDC does the same through krb5_rd_req)
+	rec.AuthCRealm = ap.Authenticator.CRealm
+	if ap.Authenticator.CRealm != tk.CRealm || !ap.Authenticator.CName.Equal(tk.CName) {
+		rec.Answer = "krberror-36"
+		return k.krbErr(errorcode.KRB_AP_ERR_BADMATCH, b.Realm, tk.CName, b.SName, nil)
+	}
 	rec.AuthOK = true
 	if p := k.pert; p != nil && p.Kind == "TGS" && p.Field == "krbError" {
 		if p.once {
@@ -635,7 +647,7 @@ func (k *simKDC) handleTGS(tgs messages.TGSReq, transport string) []byte {
 	}
 	renewal := types.IsFlagSet(&b.KDCOptions, flags.Renew)
 	if renewal {
-		if !types.IsFlagSet(&tk.Flags, flags.Renewable) || time.Now().UTC().After(tk.RenewTill) {
+		if !types.IsFlagSet(&tk.Flags, flags.Renewable) || k.now().UTC().After(tk.RenewTill) {
 			rec.Answer = "krberror-13"
 			return k.krbErr(errorcode.KDC_ERR_BADOPTION, b.Realm, tk.CName, b.SName, nil)
 		}
